@@ -866,7 +866,8 @@ def live_verdict(ctx, hists, res):
 # ------------------------------------------------------------------ (C) end to end
 MAXEV = 4096
 HOWS = {"sigkill": 0, "segv": 1, "abort": 2, "_exit": 3, "execv": 4, "exit": 5, "sigusr1": 6, "sigterm": 7, "sigfpe": 8,
-        "none": 9, "exec_fail": 10, "fork": 11, "fork_parent_killed": 12, "fork_child_killed": 13, "loop": 14}
+        "none": 9, "exec_fail": 10, "fork": 11, "fork_parent_killed": 12, "fork_child_killed": 13, "loop": 14,
+        "fork_child_exec": 15}
 
 PROG_HEAD = r"""
 #define _GNU_SOURCE
@@ -910,6 +911,16 @@ NOI static void die(void)
 		}
 		else if (p > 0 && how == 12)
 			kill(getpid(), SIGKILL);
+		break;
+	}
+	case 15: {                                           /* fork, the child exec()s the traced program at once */
+		pid_t p = fork();
+		kill_th = -1;
+		if (p == 0) {
+			my = &L[NTH + 1]; my->n = 0; my->tid = syscall(SYS_gettid);
+			execv(self_argv[0], self_argv);
+			_exit(9);
+		}
 		break;
 	}
 	}
@@ -1202,8 +1213,9 @@ def run_e2e(ctx, objdir, out=None):
                       "src": src, "id": pi, "big": big})
     cases = []
     hows = ["sigkill", "segv", "abort", "_exit", "execv", "exit", "finish", "sigfinish",
-            "sigterm", "sigfpe", "exec_untraced", "exec_fail", "fork", "fork_parent_killed", "fork_child_killed", "async_kill"]
-    per = ctx.n(16, 32)
+            "sigterm", "sigfpe", "exec_untraced", "exec_fail", "fork", "fork_parent_killed", "fork_child_killed", "async_kill",
+            "fork_child_exec"]
+    per = ctx.n(17, 34)
     for pr in progs:
         for j in range(per):
             how = hows[j % len(hows)]
@@ -1247,6 +1259,16 @@ def run_e2e(ctx, objdir, out=None):
                              "at": rng.randrange(max(1, len(pr["full"][0][1])))})      # no stage 2: /bin/true
             if how in ("fork", "fork_parent_killed", "fork_child_killed"):
                 case.update({"kind": how, "th": 0, "at": rng.randrange(max(1, len(pr["full"][0][1])))})
+            if how == "fork_child_exec":
+                # fork + exec, the common way: the child's tid is known to the recorder through FORK_START/FORK_END (with
+                # the PARENT's pid), its first buffer is announced, then the new image's REC_START and TASK_START come
+                # (flush_old_shmem); small buffers make the new image switch buffers
+                h2 = rng.choice(["none", "segv", "sigkill", "abort"])
+                t0n = len(pr["full"][0][1])
+                case.update({"kind": how, "th": 0, "at": rng.randrange(max(1, t0n)),
+                             "opts": rng.choice([["-b", "4k"], ["-b", "4k"], []]),
+                             "stage2": {"how": h2, "th": 0 if h2 != "none" else -1,
+                                        "at": rng.randrange(t0n) if (t0n and h2 != "none") else -1}})
             if how == "async_kill":
                 # SIGKILL from outside at an arbitrary instant (not at a traced event) while every thread loops
                 case.update({"how": "loop", "kind": "async_kill", "th": -1, "at": -1,
@@ -1336,7 +1358,7 @@ def e2e_judge(ctx, progs, cases, obs):
             dat = ob["dat"].get(tid, b"")
             nrec += len(dat) // 16
             ecases.append(coq_ecase(pr["ftab"], case.get("nt", []), case.get("maxd", 1 << 20), pt["l1"], pt["l2"], dat,
-                                    pt["c1"], pt["c2"], how not in ("execv", "exec_untraced") and not pt["free"], pt["free"]))
+                                    pt["c1"], pt["c2"], how not in ("execv", "exec_untraced", "fork_child_exec") and not pt["free"], pt["free"]))
             owner.append((ci, pt["ti"], tid))
         # the task list and the readers' view of every data file
         for tid, dat in sorted(ob["dat"].items()):
